@@ -22,7 +22,7 @@ func init() {
 		e.RCommentLines()
 	})
 	register("C04", Meta{
-		Explanation: "Static render-site analysis: for all 54 node types every decoration point of the type's Decorations struct is rendered exactly once, unconditionally, by restore, with the end flag only on the own End point, in an order consistent with the point's name (after its namesake token/child, only tokens in between), with the fragger's order and with the struct's declaration order; the listing helper exposes the same points in render order backed by n.Decs.<name>; the accessor returns &n.Decs.NodeDecs. Listing and accessor clauses are decided; placement is decided relative to the restorer's synthetic positions, not through go/printer.",
+		Explanation: "Static render-site analysis: for all 54 node types every decoration point of the type's Decorations struct is rendered exactly once, unconditionally, by restore, with the end flag only on the own End point, in an order consistent with the point's name (after its namesake token/child, only tokens in between), with the fragger's order and with the struct's declaration order; the listing helper exposes the same points in render order backed by n.Decs.<name>; the accessor returns &n.Decs.NodeDecs; on the decorate side every attachment search collects a comment or line break only while it is unattached (path conditions of the appends in the comment and line-break arms). Listing and accessor clauses are decided; placement is decided relative to the restorer's synthetic positions, not through go/printer.",
 		NotCovered:  []string{"that go/printer prints a comment where its position says", "that the token stream is otherwise unchanged"},
 	}, func(e *Env) {
 		e.RCover("restore", e.dstNodeNames(), true)
@@ -33,6 +33,8 @@ func init() {
 		e.RSink()
 		e.RCommentsNotShared()
 		e.RCommentLines()
+		// a comment or line break that one attachment search has stored is not collected by a later one
+		e.RSearchTransparency()
 	})
 	register("C06", Meta{
 		Explanation: "Static completeness and alias-freedom of Clone by induction over node types: for every type, every struct field and every decoration list the restorer reads (nested signature decorations included) is written by Clone from a recursive clone, a rebuilt list/map, a fresh append or a plain copy of an immutable kind; out is a fresh allocation and the only value returned; objects/scopes are dropped; restoreNode rejects a node met twice and every recursive call forwards the flag. Decides the whole statement structurally.",
